@@ -20,6 +20,13 @@ package main
 // mount sits on an existing directory of a live snapshot, no uncommitted snapshot is
 // remote-labelled, parents exist and are committed, every acknowledged own key is there.
 //
+// Extra actor: inside a quarter of the successful backend Mount calls of a
+// Prepare(key, target=T) the monitor itself creates an active or view snapshot whose key is
+// T (injectDuringMount), the interleaving a concurrent caller needs to hit the window
+// between any "is the target committed" test and the internal commit; clause (a) then
+// decides. (A committed T cannot become an active/view key without a Remove(T), so the
+// judgement stays sound.)
+//
 // No shared lock or counter is placed on the operation path by the monitor: events are
 // kept per goroutine, the per-name removal counters are per-object atomics, and the
 // backend's table lock mirrors the lock the real filesystem has.
@@ -33,6 +40,7 @@ import (
 	"strings"
 	"sync"
 	"sync/atomic"
+	"time"
 
 	"github.com/containerd/containerd/v2/core/mount"
 	"github.com/containerd/containerd/v2/core/snapshots"
@@ -91,6 +99,37 @@ type concCase struct {
 	ctx     context.Context
 	failMod uint64
 	seed    uint64
+	injWG   sync.WaitGroup
+	injOK, injFail, injLate atomic.Int64
+}
+
+// injectDuringMount: see the OnCall handler. The wait inside Mount is bounded because
+// the caller of Mount holds a bbolt read transaction (a writer that must grow the memory
+// map waits for it); a late injection finishes after Mount returned. Every injected call
+// is joined before the quiescence checks.
+func (c *concCase) injectDuringMount(target string, view bool) {
+	done := make(chan struct{})
+	c.injWG.Add(1)
+	go func() {
+		defer c.injWG.Done()
+		defer close(done)
+		var err error
+		if view {
+			_, err = c.sn.View(c.ctx, target, "", snapshots.WithLabels(map[string]string{snapdrv.UserLabel: "inj"}))
+		} else {
+			_, err = c.sn.Prepare(c.ctx, target, "", snapshots.WithLabels(map[string]string{snapdrv.UserLabel: "inj"}))
+		}
+		if err == nil {
+			c.injOK.Add(1)
+		} else {
+			c.injFail.Add(1)
+		}
+	}()
+	select {
+	case <-done:
+	case <-time.After(300 * time.Millisecond):
+		c.injLate.Add(1)
+	}
 }
 
 func (c *concCase) walk() (map[string]snapshots.Info, error) {
@@ -128,6 +167,14 @@ func runConc(r *vf.Run, work string, idx int) {
 	async := rng.Bool()
 	c.fs = recfs.New()
 	c.fs.OnCall = func(ev *recfs.Event) {
+		if ev.Kind == recfs.KMount && !ev.Injected && ev.DirExists {
+			// a quarter of the successful backend mounts: while the Mount of
+			// Prepare(key, target=T) is in progress "another caller" (this monitor) creates
+			// an active or view snapshot whose key is T
+			if t, ok := ev.Labels[snapdrv.TargetLabel]; ok && prng.Hash64(c.seed, 77, uint64(ev.N))%4 == 0 {
+				c.injectDuringMount(t, prng.Hash64(c.seed, 78, uint64(ev.N))%2 == 0)
+			}
+		}
 		if ev.Kind != recfs.KUnmount || !ev.WasMounted {
 			return
 		}
@@ -201,6 +248,7 @@ func runConc(r *vf.Run, work string, idx int) {
 		}
 		close(start)
 		wg.Wait()
+		c.injWG.Wait()
 		for _, cl := range callers {
 			for _, v := range cl.viols {
 				replay["log_of_caller"] = cl.log
@@ -225,6 +273,9 @@ func runConc(r *vf.Run, work string, idx int) {
 			allLogs = append(allLogs, cl.log...)
 		}
 	}
+	total["key_equal_target_created_during_mount"] = int(c.injOK.Load())
+	total["key_equal_target_injection_refused"] = int(c.injFail.Load())
+	total["key_equal_target_injection_late"] = int(c.injLate.Load())
 	for k, v := range total {
 		r.Count("conc:"+k, v)
 	}
@@ -294,6 +345,9 @@ func (c *concCase) oneOp(cl *caller) {
 			case !quiet:
 				cl.counts["skipped_target_stat_overlapping_remove"]++
 			default:
+				// a committed target cannot turn into an active/view key or vanish without a
+				// Remove(target); none overlapped, so the report was wrong when it was made
+				// (e.g. the name was taken by an uncommitted key while the backend mount ran)
 				cl.viols = append(cl.viols, viol{"a:already-exists-reported-but-target-not-committed:concurrent", fmt.Sprintf("Prepare(%s,target=%s) reported AlreadyExists, Stat(target)=%s/%v and no Remove(target) overlapped", key, target, snapdrv.KindName(info.Kind), serr)})
 			}
 			// is the key left behind? (it is when the target existed before)
